@@ -356,6 +356,12 @@ theorem C12_ack_reference :
           ⟨s!"options.Ref.ID[{i.1}]", i.2, 8, 0, ""⟩ ∈ k.writes ∧ ⟨s!"options.Ref.ID[{i.1}]", i.2, 8, 0, ""⟩ ∈ k.reads) := by
   decide
 
+/-- buffer lifetime: no receive case reads a header field after it has handed the frame buffer back
+    to the pool (`lib.ReleaseBuffer`) — the acknowledgement reference in particular is read while the
+    frame is still there (statement-order data flow extracted from handleRecvQueue; before the S8
+    repair this list was [MessagePID@17, MessageName@17, MessageNameCache@17, MessageAlias@17]) -/
+theorem C12_no_read_after_release : readsAfterRelease = [] := by decide
+
 example : importantSend id some true true (.named "gen.ErrProcessMailboxFull") = .result (.named "gen.ErrProcessMailboxFull") := by decide
 example : importantSend id some true false .ok = .noAck := by decide
 
